@@ -218,6 +218,7 @@ impl Token {
 }
 
 #[derive(Default)]
+#[cfg_attr(feature = "serde", derive(serde::Serialize, serde::Deserialize))]
 enum PendingWhitespace {
     #[default]
     NotStarted,
@@ -279,6 +280,7 @@ impl Display for PendingWhitespace {
 
 /// Data structure for writing tokens
 #[derive(Default)]
+#[cfg_attr(feature = "serde", derive(serde::Serialize, serde::Deserialize))]
 pub struct Writer {
     pending_whitespace: PendingWhitespace,
 }
